@@ -172,7 +172,14 @@ theorem select_cases (span : α → Span) (pos : Nat) (xs : List α) (lo hi : Na
 /-! ### Facts about `wn` and `spec` -/
 
 theorem Pat.wn_wf (p : Pat) (h : p.wn = true) : p.span.lo ≤ p.span.hi := by
-  cases p <;> simp only [Pat.wn, Pat.span, Span.wf, Bool.and_eq_true, decide_eq_true_eq] at h ⊢ <;> omega
+  cases p with
+  | fieldShort nsp b => simp [Pat.wn] at h
+  | fieldVal nsp v => simp [Pat.wn] at h
+  | leaf sp b => simpa [Pat.wn, Pat.span, Span.wf] using h
+  | tuple sp ps => simp only [Pat.wn, Pat.span, Span.wf, Bool.and_eq_true, decide_eq_true_eq] at h ⊢; omega
+  | ctor sp l ps => simp only [Pat.wn, Pat.span, Span.wf, Bool.and_eq_true, decide_eq_true_eq] at h ⊢; omega
+  | as_ sp b q => simp only [Pat.wn, Pat.span, Span.wf, Bool.and_eq_true, decide_eq_true_eq] at h ⊢; omega
+  | record sp fs => simp only [Pat.wn, Pat.span, Span.wf, Bool.and_eq_true, decide_eq_true_eq] at h ⊢; omega
 
 theorem Expr.wn_wf (e : Expr) (h : e.wn = true) : e.span.lo ≤ e.span.hi := by
   cases e <;> unfold Expr.wn at h <;> simp only [Expr.span, Span.wf, Bool.and_eq_true, decide_eq_true_eq] at h ⊢ <;> omega
@@ -227,6 +234,67 @@ theorem specExprs_find (pos : Nat) (cs : List Expr) :
     simp only [specExprs, List.find?]
     cases h : isAt q.span pos <;> simp [ih]
 
+/-- a well-nested record pattern has fields only, each well formed -/
+theorem wnFields_mem {fs : List Pat} (h : Pat.wn.wnFields fs = true) :
+    ∀ x ∈ fs, (∃ nsp b, x = .fieldShort nsp b ∧ nsp.lo ≤ nsp.hi) ∨
+      (∃ nsp v, x = .fieldVal nsp v ∧ nsp.lo ≤ nsp.hi ∧ nsp.hi < v.span.lo ∧ v.wn = true) := by
+  induction fs with
+  | nil => simp
+  | cons q qs ih =>
+    intro x hx
+    simp at hx
+    cases q with
+    | fieldShort nsp b =>
+      simp only [Pat.wn.wnFields, Span.wf, Bool.and_eq_true, decide_eq_true_eq] at h
+      rcases hx with rfl | hx
+      · exact Or.inl ⟨nsp, b, rfl, h.1⟩
+      · exact ih h.2 x hx
+    | fieldVal nsp v =>
+      simp only [Pat.wn.wnFields, Span.wf, Bool.and_eq_true, decide_eq_true_eq] at h
+      rcases hx with rfl | hx
+      · exact Or.inr ⟨nsp, v, rfl, h.1.1.1, h.1.1.2, h.1.2⟩
+      · exact ih h.2 x hx
+    | leaf _ _ => simp [Pat.wn.wnFields] at h
+    | tuple _ _ => simp [Pat.wn.wnFields] at h
+    | ctor _ _ _ => simp [Pat.wn.wnFields] at h
+    | as_ _ _ _ => simp [Pat.wn.wnFields] at h
+    | record _ _ => simp [Pat.wn.wnFields] at h
+
+/-- what is at `pos` inside a field whose span contains `pos` -/
+def fieldSpec (pos : Nat) : Pat → Option M
+  | .fieldShort nsp _ => some ⟨.ident, nsp, .plain⟩
+  | .fieldVal nsp v =>
+    if isAt nsp pos then some ⟨.ident, nsp, .plain⟩
+    else if isAt v.span pos then v.spec pos else none
+  | _ => none
+
+theorem specFieldsP_find (pos : Nat) (fs : List Pat) (h : Pat.wn.wnFields fs = true) :
+    Pat.spec.specFieldsP pos fs =
+      match fs.find? (fun p => isAt p.span pos) with
+      | some p => fieldSpec pos p
+      | none => none := by
+  induction fs with
+  | nil => rfl
+  | cons q qs ih =>
+    cases q with
+    | fieldShort nsp b =>
+      simp only [Pat.wn.wnFields, Bool.and_eq_true] at h
+      simp only [Pat.spec.specFieldsP, List.find?_cons, Pat.span]
+      cases isAt nsp pos
+      · simpa using ih h.2
+      · simp [fieldSpec]
+    | fieldVal nsp v =>
+      simp only [Pat.wn.wnFields, Bool.and_eq_true] at h
+      simp only [Pat.spec.specFieldsP, List.find?_cons, Pat.span]
+      cases isAt ⟨nsp.lo, v.span.hi⟩ pos
+      · simpa using ih h.2
+      · simp [fieldSpec]
+    | leaf _ _ => simp [Pat.wn.wnFields] at h
+    | tuple _ _ => simp [Pat.wn.wnFields] at h
+    | ctor _ _ _ => simp [Pat.wn.wnFields] at h
+    | as_ _ _ _ => simp [Pat.wn.wnFields] at h
+    | record _ _ => simp [Pat.wn.wnFields] at h
+
 /-! ### State bookkeeping -/
 
 @[simp] theorem enter_found (m : M) (pos : Nat) (st : St) : (enter m pos st).found = st.found := by
@@ -249,6 +317,28 @@ theorem specExprs_find (pos : Nat) (cs : List Expr) :
 
 theorem hitOf_notFound (pos : Nat) (st : St) (h : st.found = .notFound) : hitOf pos st = none := by
   unfold hitOf; rw [h]
+
+theorem isAt_of (s : Span) (pos : Nat) (h1 : s.lo ≤ pos) (h2 : pos ≤ s.hi) : isAt s pos = true := by
+  rw [isAt_wf _ _ (by omega)]; omega
+
+theorem isAt_lt (s : Span) (pos : Nat) (hw : s.lo ≤ s.hi) (h : pos < s.lo) : isAt s pos = false := by
+  cases h' : isAt s pos with
+  | false => rfl
+  | true => rw [isAt_wf _ _ hw] at h'; omega
+
+theorem isAt_gt (s : Span) (pos : Nat) (hw : s.lo ≤ s.hi) (h : s.hi < pos) : isAt s pos = false := by
+  cases h' : isAt s pos with
+  | false => rfl
+  | true => rw [isAt_wf _ _ hw] at h'; omega
+
+theorem cont_lt (s : Span) (pos : Nat) (hw : s.lo ≤ s.hi) (h : pos < s.lo) : s.containment pos = .lt := by
+  rw [containment_lt_iff]; omega
+
+theorem cont_gt (s : Span) (pos : Nat) (hw : s.lo ≤ s.hi) (h : s.hi < pos) : s.containment pos = .gt := by
+  rw [containment_gt_iff]; omega
+
+theorem cont_eq (s : Span) (pos : Nat) (h1 : s.lo ≤ pos) (h2 : pos ≤ s.hi) : s.containment pos = .eq := by
+  rw [containment_eq_iff]; omega
 
 /-! ### One step preserves "what is at the position" -/
 
@@ -333,27 +423,44 @@ theorem step_spec_pat (fx : Bool) (pos : Nat) (p : Pat) (st : St)
           rw [Pat.spec_none pos y hyn]
           cases isAt sp pos <;> simp [Pat.spec, hidAt, specList_find, hfind]
 
-theorem isAt_of (s : Span) (pos : Nat) (h1 : s.lo ≤ pos) (h2 : pos ≤ s.hi) : isAt s pos = true := by
-  rw [isAt_wf _ _ (by omega)]; omega
-
-theorem isAt_lt (s : Span) (pos : Nat) (hw : s.lo ≤ s.hi) (h : pos < s.lo) : isAt s pos = false := by
-  cases h' : isAt s pos with
-  | false => rfl
-  | true => rw [isAt_wf _ _ hw] at h'; omega
-
-theorem isAt_gt (s : Span) (pos : Nat) (hw : s.lo ≤ s.hi) (h : s.hi < pos) : isAt s pos = false := by
-  cases h' : isAt s pos with
-  | false => rfl
-  | true => rw [isAt_wf _ _ hw] at h'; omega
-
-theorem cont_lt (s : Span) (pos : Nat) (hw : s.lo ≤ s.hi) (h : pos < s.lo) : s.containment pos = .lt := by
-  rw [containment_lt_iff]; omega
-
-theorem cont_gt (s : Span) (pos : Nat) (hw : s.lo ≤ s.hi) (h : s.hi < pos) : s.containment pos = .gt := by
-  rw [containment_gt_iff]; omega
-
-theorem cont_eq (s : Span) (pos : Nat) (h1 : s.lo ≤ pos) (h2 : pos ≤ s.hi) : s.containment pos = .eq := by
-  rw [containment_eq_iff]; omega
+  | fieldShort nsp b => simp [Pat.wn] at hw
+  | fieldVal nsp v => simp [Pat.wn] at hw
+  | record sp fs =>
+    simp only [Pat.wn, Span.wf, Bool.and_eq_true, decide_eq_true_eq] at hw
+    obtain ⟨⟨hwf, hch⟩, hwl⟩ := hw
+    simp only [step]
+    rcases select_cases Pat.span pos fs sp.lo sp.hi hch with ⟨x, hfind, hsel, hm, hat⟩ | ⟨hfind, r, hsel, hr, hnil⟩
+    · rw [hsel]
+      have hin := chain_mem Pat.span fs _ _ hch x hm
+      have hsp : isAt sp pos = true := by
+        rw [isAt_wf _ _ hwf]; rw [isAt_wf _ _ hin.2.1] at hat; omega
+      have hspec : (Pat.record sp fs).spec pos = fieldSpec pos x := by
+        simp [Pat.spec, hsp, specFieldsP_find pos fs hwl, hfind]
+      rw [hspec]
+      rcases wnFields_mem hwl x hm with ⟨nsp, b, rfl, hn⟩ | ⟨nsp, v, rfl, hn1, hn2, hvw⟩
+      · have : isAt nsp pos = true := hat
+        simp [StepSpec, fieldSpec, this]
+      · simp only
+        have hvwf := Pat.wn_wf v hvw
+        have hat' : isAt ⟨nsp.lo, v.span.hi⟩ pos = true := hat
+        rw [isAt_wf _ _ (by simp; omega)] at hat'
+        simp at hat'
+        by_cases c1 : pos ≤ nsp.hi
+        · have hc := cont_eq nsp pos hat'.1 c1
+          have ha := isAt_of nsp pos hat'.1 c1
+          simp [hc, StepSpec, fieldSpec, ha]
+        · have hc := cont_gt nsp pos hn1 (by omega)
+          have ha := isAt_gt nsp pos hn1 (by omega)
+          simp only [hc, StepSpec, Node.wn, Node.spec, enter_found, fieldSpec, ha]
+          refine ⟨hvw, hf, ?_⟩
+          cases hv : isAt v.span pos
+          · simp [Pat.spec_none pos v hv]
+          · simp
+    · rw [hsel]
+      have : (Pat.record sp fs).spec pos = none := by
+        cases isAt sp pos <;> simp [Pat.spec, specFieldsP_find pos fs hwl, hfind]
+      rw [this]
+      simp [StepSpec]
 
 theorem step_spec_variant (fx : Bool) (pos : Nat) (v : Option Variant) (st : St)
     (hw : Node.wn (.variant v) = true) (hf : st.found = .notFound) :
